@@ -389,52 +389,140 @@ fn p_expr(e: ExprRef<'_>, o: &mut String) {
     }
 }
 
-// ---- candidates for redundant parentheses: (first token start, last leaf token start)
+// ---- candidates for redundant parentheses: balanced token ranges [first, last] of sub-expressions
 
-struct Cands {
-    v: Vec<(usize, usize)>,
+/// Extends the token range [f, l] until its parentheses and brackets are balanced.
+fn balance(toks: &[Tok], mut f: usize, mut l: usize) -> Option<(usize, usize)> {
+    if l < f || l >= toks.len() {
+        return None;
+    }
+    loop {
+        let mut depth: i64 = 0;
+        let mut neg = false;
+        for t in &toks[f..=l] {
+            match t.kind {
+                "LParen" | "LBracket" => depth += 1,
+                "RParen" | "RBracket" => {
+                    depth -= 1;
+                    if depth < 0 {
+                        neg = true;
+                        break;
+                    }
+                }
+                _ => {}
+            }
+        }
+        if neg {
+            if f == 0 || !matches!(toks[f - 1].kind, "LParen" | "LBracket") {
+                return None;
+            }
+            f -= 1;
+            continue;
+        }
+        if depth == 0 {
+            return Some((f, l));
+        }
+        // unclosed openers inside: take tokens until they close
+        while depth > 0 {
+            l += 1;
+            if l >= toks.len() {
+                return None;
+            }
+            match toks[l].kind {
+                "LParen" | "LBracket" => depth += 1,
+                "RParen" | "RBracket" => depth -= 1,
+                _ => {}
+            }
+        }
+    }
 }
 
-impl Cands {
-    /// Returns (start offset of the first leaf token, a start offset of a token inside the
-    /// expression at or after which the expression's last token lies).  `head` = the expression
-    /// begins a statement (must not be wrapped: statements start with an identifier).
+struct Cands<'t> {
+    toks: &'t [Tok],
+    by_start: HashMap<usize, usize>,
+    v: Vec<(usize, usize)>,
+    ok: bool,
+}
+
+impl Cands<'_> {
+    fn at(&mut self, start: usize) -> usize {
+        match self.by_start.get(&start) {
+            Some(i) => *i,
+            None => {
+                self.ok = false;
+                0
+            }
+        }
+    }
+
+    fn bal(&mut self, f: usize, l: usize) -> (usize, usize) {
+        match balance(self.toks, f, l) {
+            Some(r) => r,
+            None => {
+                self.ok = false;
+                (f, f)
+            }
+        }
+    }
+
+    /// Balanced token range of the expression (leaf spans are exact token spans; everything else
+    /// is rebuilt from the leaves because the parser's composite spans reach into the look-ahead
+    /// token).  `head` = the expression begins a statement (a statement must start with an
+    /// identifier, so such an expression is not wrapped).
     fn expr(&mut self, e: ExprRef<'_>, head: bool) -> (usize, usize) {
         let r = match e {
-            Expr::Number(_, sp) | Expr::Var(_, sp) | Expr::Bool(_, sp) | Expr::Null(sp) => (sp.start, sp.start),
-            Expr::String { span, .. } => (span.start, span.start),
+            Expr::Number(_, sp) | Expr::Var(_, sp) | Expr::Bool(_, sp) | Expr::Null(sp) => {
+                let i = self.at(sp.start);
+                (i, i)
+            }
+            Expr::String { span, .. } => {
+                let i = self.at(span.start);
+                (i, i)
+            }
             Expr::Binary { lhs, rhs, .. } => {
                 let a = self.expr(lhs, head);
                 let b = self.expr(rhs, false);
-                (a.0, b.1)
+                self.bal(a.0, b.1)
             }
             Expr::Unary { expr, span, .. } => {
                 let b = self.expr(expr, false);
-                (span.start, b.1)
+                let f = self.at(span.start);
+                self.bal(f, b.1)
             }
             Expr::Array { elements, span } => {
-                let mut last = span.start;
+                let f = self.at(span.start);
+                let mut last = f;
                 for el in *elements {
                     last = self.expr(el, false).1;
                 }
-                (span.start, last)
+                self.bal(f, last)
             }
             Expr::Index { array, index, .. } => {
                 let a = self.expr(array, head);
                 let b = self.expr(index, false);
-                (a.0, b.1)
+                self.bal(a.0, b.1)
             }
             Expr::Member { object, field_span, .. } => {
                 let a = self.expr(object, head);
-                (a.0, field_span.start)
+                let l = self.at(field_span.start);
+                self.bal(a.0, l)
             }
             Expr::Call { callee, args, .. } => {
                 let a = self.expr(callee, head);
-                let mut last = a.1;
+                // the call's `(`: behind the callee and the `)` of parentheses around the callee
+                let mut j = a.1 + 1;
+                while j < self.toks.len() && self.toks[j].kind == "RParen" {
+                    j += 1;
+                }
+                if j >= self.toks.len() || self.toks[j].kind != "LParen" {
+                    self.ok = false;
+                    j = a.1;
+                }
+                let mut last = j;
                 for x in args.args {
                     last = self.expr(x, false).1;
                 }
-                (a.0, last)
+                self.bal(a.0, last)
             }
         };
         if !head {
@@ -497,6 +585,7 @@ struct Obs {
     output: String,
     ending: String,
     cands: Vec<(usize, usize)>,
+    cands_ok: bool,
 }
 
 /// The pipeline of src/bin/naija/cmd.rs::run_source on one text.
@@ -519,9 +608,11 @@ fn observe(src: &str, want_cands: bool) -> Obs {
         return o;
     }
     if want_cands {
-        let mut c = Cands { v: Vec::new() };
+        let by_start: HashMap<usize, usize> = toks.iter().enumerate().map(|(i, t)| (t.start, i)).collect();
+        let mut c = Cands { toks: &toks, by_start, v: Vec::new(), ok: true };
         c.block(root);
         o.cands = c.v;
+        o.cands_ok = c.ok;
     }
     let res_arena = Arena::new(256 * MEBI).expect("arena");
     let mut resolver = Resolver::with_facts_arena(&res_arena, &arena);
@@ -953,62 +1044,12 @@ impl Abs {
 
 // ------------------------------------------------------------------ redundant parentheses
 
-/// Extends the token range [f, l] until its parentheses and brackets are balanced.
-fn balance(toks: &[Tok], mut f: usize, mut l: usize) -> Option<(usize, usize)> {
-    loop {
-        let mut depth: i64 = 0;
-        let mut neg = false;
-        for t in &toks[f..=l] {
-            match t.kind {
-                "LParen" | "LBracket" => depth += 1,
-                "RParen" | "RBracket" => {
-                    depth -= 1;
-                    if depth < 0 {
-                        neg = true;
-                        break;
-                    }
-                }
-                _ => {}
-            }
-        }
-        if neg {
-            if f == 0 || !matches!(toks[f - 1].kind, "LParen" | "LBracket") {
-                return None;
-            }
-            f -= 1;
-            continue;
-        }
-        if depth == 0 {
-            return Some((f, l));
-        }
-        // unclosed openers inside: take tokens until they close
-        while depth > 0 {
-            l += 1;
-            if l >= toks.len() {
-                return None;
-            }
-            match toks[l].kind {
-                "LParen" | "LBracket" => depth += 1,
-                "RParen" | "RBracket" => depth -= 1,
-                _ => {}
-            }
-        }
-    }
-}
-
 fn parens_variant(src: &str, toks: &[Tok], cands: &[(usize, usize)], pick: &[usize]) -> Option<(String, usize)> {
-    let by_start: HashMap<usize, usize> = toks.iter().enumerate().map(|(i, t)| (t.start, i)).collect();
     let mut opens: HashMap<usize, usize> = HashMap::new();
     let mut closes: HashMap<usize, usize> = HashMap::new();
     let mut n = 0;
     for &c in pick {
-        let (s, e) = cands[c];
-        let f = *by_start.get(&s)?;
-        let l = *by_start.get(&e)?;
-        if l < f {
-            return None;
-        }
-        let (f, l) = balance(toks, f, l)?;
+        let (f, l) = cands[c];
         *opens.entry(toks[f].start).or_insert(0) += 1;
         *closes.entry(toks[l].end).or_insert(0) += 1;
         n += 1;
@@ -1085,7 +1126,10 @@ fn one_case(w: &mut impl std::io::Write, seed: u64, k: usize, src: &str) {
         w.flush().unwrap();
     }
     // redundant parentheses (programs the parser accepts without diagnostics)
-    if base.gate != "parse" && !base.cands.is_empty() {
+    if base.gate != "parse" && !base.cands_ok {
+        writeln!(w, "X 0 0 - unmapped").unwrap();
+    }
+    if base.gate != "parse" && base.cands_ok && !base.cands.is_empty() {
         let nc = base.cands.len();
         let variants: Vec<Vec<usize>> = vec![
             vec![r.below(nc)],
